@@ -6,12 +6,13 @@ From Coq Require Import List PArith NArith Bool Arith Lia.
 From AsconV Require Import Sym.BitPoly Sym.Wexpr Sym.Pipe Sym.PermW.
 Import ListNotations.
 
-Inductive klayout := KL64 | KL32 | KL8.
+Inductive klayout := KL64 | KL32 | KL8 | KL32BE.
 (* KL64: uint64_t S[5] in host (little-endian) byte order; KL32: uint32_t W[10], W[2i] = even bits,
-   W[2i+1] = odd bits of word i, host order; KL8: the canonical big-endian bytes *)
+   W[2i+1] = odd bits of word i, host order; KL8: the canonical big-endian bytes;
+   KL32BE: as KL32 on a big-endian host (m68k): each W[j] is stored most significant byte first *)
 
 Definition mem_widths : list nat := repeat 8 40.
-Definition int_widths (L : klayout) : list nat := match L with KL32 => repeat 32 10 | _ => repeat 64 5 end.
+Definition int_widths (L : klayout) : list nat := match L with KL32 | KL32BE => repeat 32 10 | _ => repeat 64 5 end.
 
 Fixpoint le_concat (bytes : list wexpr) : wexpr :=       (* first byte least significant *)
   match bytes with
@@ -27,6 +28,7 @@ Definition dec_prog (L : klayout) : prog :=
                | KL64 => map (fun i => le_concat (firstn 8 (skipn (8 * i) ins))) (seq 0 5)
                | KL8 => map (fun i => be_concat (firstn 8 (skipn (8 * i) ins))) (seq 0 5)
                | KL32 => map (fun j => le_concat (firstn 4 (skipn (4 * j) ins))) (seq 0 10)
+               | KL32BE => map (fun j => be_concat (firstn 4 (skipn (4 * j) ins))) (seq 0 10)
                end |}.
 Definition enc_prog (L : klayout) : prog :=
   {| p_body := [];
@@ -34,11 +36,12 @@ Definition enc_prog (L : klayout) : prog :=
                | KL64 => flat_map (fun i => map (fun k => WTrunc 8 (WShr (8 * k) (WIn i))) (seq 0 8)) (seq 0 5)
                | KL8 => flat_map (fun i => map (fun k => WTrunc 8 (WShr (8 * (7 - k)) (WIn i))) (seq 0 8)) (seq 0 5)
                | KL32 => flat_map (fun j => map (fun k => WTrunc 8 (WShr (8 * k) (WIn j))) (seq 0 4)) (seq 0 10)
+               | KL32BE => flat_map (fun j => map (fun k => WTrunc 8 (WShr (8 * (3 - k)) (WIn j))) (seq 0 4)) (seq 0 10)
                end |}.
 Definition round_prog (L : klayout) (j : nat) : prog :=
   {| p_body := [];
      p_outs := match L with
-               | KL32 => flat_map (fun e => [WEven e; WOdd e])
+               | KL32 | KL32BE => flat_map (fun e => [WEven e; WOdd e])
                            (round_exprs (rcw j) (map (fun i => WInterleave (WIn (2 * i)) (WIn (2 * i + 1))) (seq 0 5)))
                | _ => round_exprs (rcw j) (in_exprs 5)
                end |}.
